@@ -113,10 +113,46 @@ def canonical_first_appearance(tup_of_syn):
     return True
 
 
-def synteny_tuples(nleaves, menu):
-    """tuples of leaf syntenies up to bijective renaming of families"""
+_CLOSED = {}
+_ORDERED_MENUS = set()
+
+
+def subsequence_syntenies(nf):
+    """the non-empty subsequences of the first nf families in alphabetical order, as a menu for the *ordered* algorithms
+    (every member is a sorted tuple, so the menu is registered as ordered: it is not closed under renaming of families)"""
+    menu = [s_ for s_ in ordered_syntenies(nf) if s_ == tuple(sorted(s_))]
+    _ORDERED_MENUS.add(tuple(menu))
+    return menu
+
+
+
+def closed_under_renaming(menu, ordered=None):
+    """True iff the menu is mapped onto itself by every permutation of the families it uses (as sets for the unordered
+    menus, as sequences for the ordered ones); only then is "up to renaming of families" a sound reduction of the tuples"""
+    if ordered is None:
+        ordered = tuple(menu) in _ORDERED_MENUS or any(tuple(s_) != tuple(sorted(s_)) for s_ in menu)
+    key = (tuple(menu), ordered)
+    if key not in _CLOSED:
+        fams = sorted({f for s_ in menu for f in s_})
+        ordered_menu = ordered
+        norm = (lambda x: tuple(x)) if ordered_menu else (lambda x: tuple(sorted(x)))
+        have = {norm(s_) for s_ in menu}
+        ok = True
+        for perm in itertools.permutations(fams):
+            ren = dict(zip(fams, perm))
+            if {norm(tuple(ren[f] for f in s_)) for s_ in menu} != have:
+                ok = False
+                break
+        _CLOSED[key] = ok
+    return _CLOSED[key]
+
+
+def synteny_tuples(nleaves, menu, ordered=None):
+    """tuples of leaf syntenies; up to bijective renaming of families when the menu is closed under renaming (a restricted
+    menu such as 'subsequences of abc' is enumerated in full: reducing it would drop tuples whose renamed twin is not in it)"""
+    reduce_ = closed_under_renaming(menu, ordered)
     for tup in itertools.product(menu, repeat=nleaves):
-        if canonical_first_appearance(tup):
+        if not reduce_ or canonical_first_appearance(tup):
             yield tup
 
 
